@@ -83,6 +83,52 @@ fn run_model(name: &str, threads: Vec<Vec<(bool, u64)>>, bound: Option<usize>) -
     }
 }
 
+/// 2 writer threads and a monitor thread that looks at the statistics while they are being updated
+fn run_monitor_model(bound: Option<usize>) -> (usize, Result<(), String>) {
+    EXECS.store(0, Ordering::SeqCst);
+    let vals = [3u64, 70, 1000, 5];
+    let want = seq_stats(&vals);
+    let mut b = loom::model::Builder::new();
+    b.preemption_bound = bound;
+    let r = std::panic::catch_unwind(std::panic::AssertUnwindSafe(move || {
+        b.check(move || {
+            EXECS.fetch_add(1, Ordering::SeqCst);
+            let w = Arc::new(CodesStatsWrapper::<Codes>::new(Codes::Delta));
+            let mut hs = vec![];
+            for t in 0..2usize {
+                let w = w.clone();
+                hs.push(loom::thread::spawn(move || {
+                    let mut wr: W = BufBitWriter::new(MemWordWriterVec::new(Vec::new()));
+                    for v in [vals[2 * t], vals[2 * t + 1]] {
+                        DynamicCodeWrite::write(&*w, &mut wr, v).unwrap();
+                    }
+                }));
+            }
+            let wm = w.clone();
+            let mon = loom::thread::spawn(move || {
+                // a progress monitor: the element count it sees is between 0 and 4 and never decreases
+                let a = wm.stats().lock().unwrap().total;
+                let b = wm.stats().lock().unwrap().total;
+                assert!(a <= b && b <= 4, "monitor saw totals {} then {}", a, b);
+            });
+            for h in hs {
+                h.join().unwrap();
+            }
+            mon.join().unwrap();
+            let got = format!("{:?}", *w.stats().lock().unwrap());
+            assert_eq!(got, want, "statistics after join differ from the sequential result (with a concurrent monitor)");
+        });
+    }));
+    let n = EXECS.load(Ordering::SeqCst);
+    match r {
+        Ok(()) => (n, Ok(())),
+        Err(p) => {
+            let m = if let Some(s) = p.downcast_ref::<String>() { s.clone() } else if let Some(s) = p.downcast_ref::<&str>() { s.to_string() } else { "panic".into() };
+            (n, Err(format!("2 writers x 2 writes + monitor: {}", m.chars().take(600).collect::<String>())))
+        }
+    }
+}
+
 fn main() {
     let thorough = std::env::args().any(|a| a == "thorough");
     std::panic::set_hook(Box::new(|_| {}));
@@ -108,6 +154,14 @@ fn main() {
             out.push(',');
         }
         out.push_str(&format!("{{\"name\":\"{}\",\"executions\":{},\"ok\":{}}}", name, n, r.is_ok()));
+        if let Err(e) = r {
+            viol.push(e.replace('\\', "/").replace('"', "'").replace('\n', " "));
+        }
+    }
+    {
+        let (n, r) = run_monitor_model(Some(if thorough { 3 } else { 2 }));
+        total += n;
+        out.push_str(&format!(",{{\"name\":\"2 writers x 2 writes + monitor reading stats() (bound {})\",\"executions\":{},\"ok\":{}}}", if thorough { 3 } else { 2 }, n, r.is_ok()));
         if let Err(e) = r {
             viol.push(e.replace('\\', "/").replace('"', "'").replace('\n', " "));
         }
